@@ -72,6 +72,18 @@ Step ==
         /\ Chk(e.st # "ok" \/ e.gotv = e.v, R("TextDenotesValue", "wrong-value"))
         /\ Chk(e.st # "ok" \/ ~e.inbody, R("OmittedFromBody", "still-in-body"))
         /\ Chk(e.st # "ok" \/ e.others, R("OtherFieldsInBody", "differs"))
+     ELSE IF e.ev = "HRC" THEN
+        \* a list delivered to a header: its JSON text, or - UseKitexHttpEncoding - the elements' texts joined by commas
+        LET R(lbl, got) == [tag |-> "MM", i |-> l, ev |-> "HRC", api |-> IF e.num THEN "list_i32" ELSE "list_string", label |-> lbl, exp |-> "", got |-> got,
+                             detail |-> (IF e.kitex THEN "kitex" ELSE "json") \o (IF e.two THEN "/second-annotation" ELSE "")]
+            RECURSIVE Join(_, _)
+            Join(xs, quote) == IF xs = <<>> THEN <<>>
+                               ELSE (IF quote THEN <<34>> \o Head(xs) \o <<34>> ELSE Head(xs)) \o (IF Len(xs) > 1 THEN <<44>> \o Join(Tail(xs), quote) ELSE <<>>)
+            want == IF e.kitex THEN Join(e.elems, FALSE) ELSE <<91>> \o Join(e.elems, ~e.num) \o <<93>> IN
+        /\ Chk(e.st = "ok", R("Delivers", e.st))
+        /\ Chk(e.st # "ok" \/ e.txt = want, R("TextDenotesValue", "wrong-value"))
+        /\ Chk(e.st # "ok" \/ ~e.inbody, R("OmittedFromBody", "still-in-body"))
+        /\ Chk(e.st # "ok" \/ e.others, R("OtherFieldsInBody", "differs"))
      ELSE IF e.ev = "HMMany" THEN
         Chk(e.st = "ok" /\ e.wrong = 0, [tag |-> "MM", i |-> l, ev |-> "HMMany", api |-> IF e.body THEN "json-body" ELSE "no-body", label |-> "ManyMappedRootFields",
                                           exp |-> "", got |-> IF e.st # "ok" THEN e.st ELSE "wrong-fields", detail |-> ""])
